@@ -199,6 +199,9 @@ Definition inst_ok (i : inst) : bool :=
 Definition insts : list inst := [%s].
 Definition M := Eval vm_compute in mismatches inst_ok 0 insts.
 Print M.
+(* instances for which the reference construction leaves a conflict unresolved (the table must be refused) *)
+Definition R := Eval vm_compute in mismatches (fun i => match snd (lalr (i_G i) (i_start i) (i_eof i) (i_nnt i) (i_prec i)) with [] => true | _ => false end) 0 insts.
+Print R.
 """
 
 
@@ -393,13 +396,14 @@ def check(tier):
             f.write(INST_V % ("\n".join(defs), ";\n".join(recs)))
         paths.append(path)
         offs.append(o)
-    bad, cerr = [], None
+    bad, cerr, ref_conflict = [], None, set()
     for (okc, out), o in zip(C.coqc_many(paths, timeout=600), offs):
         m = C.parse_mismatches(out) if okc else None
         if m is None:
             cerr = out
             break
         bad.extend(o + x for x in m)
+        ref_conflict.update(o + x for x in (C.parse_mismatches(out, "R") or []))
     # precedence-dictated parses for the operator family (executed on the dumped table with the driver mirror)
     tree_bad, n_expr = [], 0
     for name, text, levels, T, rejected, _sp, _ns in meta:
@@ -458,7 +462,13 @@ def check(tier):
         if diff:
             payload.update(diff)
             rep.cov.setdefault("known_finding_D25_examples", []).append({"grammar": text, **diff})
-        rep.failure("table", tags, payload, no_input=(diff is None))
+        verdict_differs = (i in ref_conflict) != bool(rejected)
+        if verdict_differs:
+            # the specification itself is the failing input: conflict reported <=> the directives leave one unresolved
+            payload["input_text"] = text
+            payload["note"] = ("the directives leave a conflict unresolved (reference LALR(1) construction) but LALRParsingTable returned a table"
+                               if i in ref_conflict else "LALRParsingTable reports a conflict that the directives resolve (reference LALR(1) construction)")
+        rep.failure("table", tags, payload, no_input=(diff is None and not verdict_differs))
     for name, text, ex, d in tree_bad[:3]:
         rep.failure("parse", {"parse"}, {"grammar": text, "sentence": ex, "detail": d})
     for name, text, why in problems[:3]:
